@@ -98,6 +98,11 @@ pub fn drive_hash(t: &mut Tracer, tier: &str, seed: u64, plan: Option<String>) {
         (hexb("0002e65b0762d042f51f0d23542b13ed8cfa2e9a0e7206361e013a283905e31f"), b"Bob".to_vec(), "exch"),
         (be_add_small(&vec![0u8; 32], 1), b"one".to_vec(), "sign"), (be_add_small(&nhex, -1), b"n-1".to_vec(), "enc"), (be_add_small(&vec![0u8; 32], 2), b"two".to_vec(), "exch"),
     ];
+    // the ends of the master-key range [1, N-1], for every kind of key
+    for kind in ["sign", "enc", "exch"] {
+        for (d, nm) in [(1i64, "k1"), (2, "k2")] { masters.push((be_add_small(&vec![0u8; 32], d), nm.as_bytes().to_vec(), kind)); }
+        for (d, nm) in [(-1i64, "kN-1"), (-2, "kN-2")] { masters.push((be_add_small(&nhex, d), nm.as_bytes().to_vec(), kind)); }
+    }
     for i in 0..(if thorough { 40 } else { 5 }) { let len = rng.below(40) as usize; masters.push((scalar(&mut rng), rng.bytes(len), ["sign", "enc", "exch"][i % 3])); }
     // limb-aligned and sparse master keys (j * 2^64, j * 2^128, 2^192, 2^255, 2^128 + c ...): products with zero limbs in the mod-N arithmetic
     for (i, (sh, j)) in [(64usize, 1u8), (64, 3), (128, 1), (128, 3), (128, 0xff), (192, 1), (192, 0x7f), (255, 1)].iter().enumerate() {
@@ -605,6 +610,18 @@ pub fn drive_arith(t: &mut Tracer, tier: &str, seed: u64) {
             }
         }
     }
+    // raw sums / differences with PATTERNED limbs (each 64-bit limb of a - b mod 2^256, resp. a + b mod 2^256, taken from 0, 1, 2^32-1, 2^32, 2^64-1):
+    // carry / borrow chains, conditional corrections by 2^256 - m
+    for (mhex, is_p) in [(P9_HEX, true), (N9_HEX, false)] {
+        for (a, b, f) in crate::suites::sm2::limb_pattern_pairs(&mut rng, mhex, if thorough { 1 } else { 2 }) {
+            if is_p { tower(t, sess(), 1, f, &a, &b, "limb-pattern"); }
+            else {
+                let (au, bu) = (u(&a), u(&b));
+                let o = guard_plain(move || if f == "add" { mod_n_add(&au, &bu) } else { mod_n_sub(&au, &bu) });
+                t.emit(&sess(), "modn.op", json!({"prop": "C13", "f": f, "cls": "limb-pattern", "a": bytes(&a), "b": bytes(&b), "out": bytes(&o.ok().map(|x| ub(x)).unwrap_or(vec![0u8; 32])), "outcome": o.name(), "detail": o.detail()}));
+            }
+        }
+    }
     // arithmetic modulo the group order N
     let npool = field_values(&mut rng, N9_HEX, if thorough { 12 } else { 4 });
     for (i, (a, ca)) in npool.iter().enumerate() {
@@ -743,17 +760,33 @@ pub fn rng_ops_sm9(t: &mut Tracer, sess: &str, proc_id: u32, count: usize, injec
     for i in 0..count {
         let script = if inject { crate::suites::sm2::injection_script(N9_HEX, P9_HEX, rng, i) } else { vec![] };
         let kind = ["keygen-sign", "keygen-enc", "keygen-enc2", "sign", "encrypt", "kx1a", "kx1b"][i % 7];
-        let (o, _, log): (Outcome<()>, _, _) = match kind {
-            "keygen-sign" => hooked(script, || { let _ = gm_sm9::key::generate_sign_master_key(); Ok(()) }),
-            "keygen-enc" => hooked(script, || { let _ = gm_sm9::key::generate_enc_master_key(); Ok(()) }),
-            "keygen-enc2" => hooked(script, || { let _ = Sm9EncMasterKey::master_key_generate(); Ok(()) }),
-            "sign" => { let m = rng.bytes(10); hooked(script, move || skey.sign(&m).map(|_| ()).map_err(|e| format!("{:?}", e))) }
-            "encrypt" => { let (msk, m) = (ec.msk, rng.bytes(8)); hooked(script, move || { let _ = msk.encrypt(b"bob", &m); Ok(()) }) }
-            "kx1a" => { let msk = ec.msk; hooked(script, move || { let _ = exch_step_1a(&msk, b"bob"); Ok(()) }) }
-            _ => { let msk = ec.msk; hooked(script, move || exch_step_1b(&msk, b"alice", b"bob", &xkey, &ra, 16).map(|_| ()).map_err(|e| format!("{:?}", e))) }
+        // what the operation made of its scalar (checked by the specification on a sample of the operations: [k]P in TLA+ is expensive)
+        let (o, _, log): (Outcome<Value>, _, _) = match kind {
+            "keygen-sign" => hooked(script, || { let _ = gm_sm9::key::generate_sign_master_key(); Ok(json!({"chk": "none"})) }),
+            "keygen-enc" => hooked(script, || { let k = gm_sm9::key::generate_enc_master_key(); Ok(json!({"chk": "g1pub", "pt": bytes(&k.ppube.to_bytes_be())})) }),
+            "keygen-enc2" => hooked(script, || { let k = Sm9EncMasterKey::master_key_generate(); Ok(json!({"chk": "g1pub", "pt": bytes(&k.ppube.to_bytes_be())})) }),
+            "sign" => { let (m, ks) = (rng.bytes(10), sc.ks.clone()); hooked(script, move || skey.sign(&m).map(|(h, s)| json!({"chk": "s9sig", "ks": bytes(&ks), "idb": bytes(b"signer"), "h": bytes(&ub(&h)), "pt": bytes(&s.to_bytes_be())})).map_err(|e| format!("{:?}", e))) }
+            "encrypt" => { let (msk, m, ke) = (ec.msk, rng.bytes(8), ec.ke.clone()); hooked(script, move || { let c = msk.encrypt(b"bob", &m); Ok(json!({"chk": "c1", "ke": bytes(&ke), "idb": bytes(b"bob"), "hid": 3, "pt": bytes(&c[..65])})) }) }
+            "kx1a" => { let (msk, ke) = (ec.msk, ec.ke.clone()); hooked(script, move || { let (p, _) = exch_step_1a(&msk, b"bob"); Ok(json!({"chk": "c1", "ke": bytes(&ke), "idb": bytes(b"bob"), "hid": 2, "pt": bytes(&p.to_bytes_be())})) }) }
+            _ => { let (msk, ke) = (ec.msk, ec.ke.clone()); hooked(script, move || exch_step_1b(&msk, b"alice", b"bob", &xkey, &ra, 16).map(|(p, _)| json!({"chk": "c1", "ke": bytes(&ke), "idb": bytes(b"alice"), "hid": 2, "pt": bytes(&p.to_bytes_be())})).map_err(|e| format!("{:?}", e))) }
         };
         let draws: Vec<Value> = log.iter().map(|e| json!({"c": bytes(&e.candidate), "a": if e.accepted { 1 } else { 0 }})).collect();
         if !inject && o.name() == "ok" { *real += 1; }
-        t.emit(sess, "rng.op", json!({"prop": "C14", "lib": "sm9", "kind": kind, "proc": proc_id, "scripted": if inject { 1 } else { 0 }, "chk": "none", "draws": draws, "outcome": o.name()}));
+        let mut f = json!({"prop": "C14", "lib": "sm9", "kind": kind, "proc": proc_id, "scripted": if inject { 1 } else { 0 }, "chk": "none", "draws": draws, "outcome": o.name()});
+        if let (Some(v), true) = (o.ok(), i % 35 < 14 || inject) { for (k, x) in v.as_object().unwrap() { f[k] = x.clone(); } }
+        t.emit(sess, "rng.op", f);
+    }
+    // an encryption whose FIRST scalar gives an all-zero K1 (ke / ID of the Annex, M = 5A, r1 = Annex r + 50): step A6 goes back to A2 -- the
+    // scalar that is finally used must be a NEW draw from the generator (two accepted draws), not something derived from the discarded one
+    if !inject && proc_id == 1 {
+        let c = enc_ctx(&hexb("0001edee3778f441f8dea3d9fa0acc4e07ee36c93f9a08618af4ad85cede1c22"));
+        let r1 = b32(&hexb("0000aac0541779c8fc45e3e2cb25c12b5d2576b2129ae8bb5ee2cbe5ec9e788e"));
+        let (msk, ke) = (c.msk, c.ke.clone());
+        // only the first candidate is scripted; the second draw comes from the real generator
+        let (o, _, log) = hooked(vec![r1], move || { let ct = msk.encrypt(b"Bob", &[0x5a]); Ok(json!({"chk": "c1", "ke": bytes(&ke), "idb": bytes(b"Bob"), "hid": 3, "pt": bytes(&ct[..65])})) });
+        let draws: Vec<Value> = log.iter().map(|e| json!({"c": bytes(&e.candidate), "a": if e.accepted { 1 } else { 0 }})).collect();
+        let mut f = json!({"prop": "C14", "lib": "sm9", "kind": "encrypt", "proc": proc_id, "scripted": 1, "retry": 1, "chk": "none", "draws": draws, "outcome": o.name()});
+        if let Some(v) = o.ok() { for (k, x) in v.as_object().unwrap() { f[k] = x.clone(); } }
+        t.emit(sess, "rng.op", f);
     }
 }
